@@ -158,8 +158,17 @@ def _post_matrix(mon, call):
     if e is None:
         mon.out_of_domain(name)
         return
-    factory = e["ref"].matrix_factory if e["kind"] == "fixed" else _factory_of(e["ref"])
-    if gate.matrix_factory is not factory or len(gate.params) != e["nparams"]:
+    # a gate that only shares a built-in's name (a user's MatrixFactoryGate) is not judged: built-in gates are the
+    # ones made by the table entry itself, i.e. equal to what the entry makes from the same parameters
+    if len(gate.params) != e["nparams"]:
+        mon.out_of_domain(name)
+        return
+    try:
+        twin = e["ref"] if e["kind"] == "fixed" else e["ref"](*gate.params)
+        same = twin.matrix_factory is gate.matrix_factory or twin.matrix_factory == gate.matrix_factory
+    except Exception:
+        same = False
+    if not same:
         mon.out_of_domain(name)
         return
     if not all(_is_real_number(p) for p in gate.params):
@@ -195,11 +204,6 @@ def _post_matrix(mon, call):
         mon.violation("flagged-hermitian-but-not", f"{gate.name}{gate.params}: |M - M^H| = {L.maxdiff(A, A.conj().T)}")
         return
     mon.ok(name)
-
-
-def _factory_of(proto):
-    cells = {c: v.cell_contents for c, v in zip(proto.__code__.co_freevars, proto.__closure__)}
-    return cells["matrix_factory"]
 
 
 def install(mon, reach):
